@@ -218,6 +218,16 @@ def gen_alg(ctx, count):
         else:
             for k in range(3):
                 env.append(gen_message(rng, fam, scalar, n, ID0 + 1000 + k))
+        if not scalar and n == 4 and rng.random() < 0.5:
+            for e in env:                       # a 2-D message: the algebra is elementwise whatever the shape
+                if "ctor" not in e:
+                    e["shape"] = [2, 2]
+        if transformed and rng.random() < 0.2:
+            for k in (1, 2):                    # operand wrapped in a DIFFERENT stack: only its base takes part
+                if env[k].get("t") and "ctor" not in env[0]:
+                    other = rng.choice(STACKS)
+                    env[k]["t"]["stack"] = gen_stack(rng, other)
+                    env[k]["t"]["kind"] = other
         exprs, info = law_exprs(rng, law, fam)
         if fam == "fixed":
             exprs = [(nm, e) for nm, e in exprs if "fromnat" not in json.dumps(e)]
@@ -337,6 +347,11 @@ def gen_hist(ctx, count):
             i = rng.randrange(n)
             if steps and rng.random() < 0.3:
                 i = steps[-1][0]                     # overwrite the same entry again
+            elif rng.random() < 0.25:
+                lo_ = rng.randrange(n)
+                i = ["slice", lo_, rng.randint(lo_ + 1, n)]
+            elif rng.random() < 0.15:
+                i = ["index"] + sorted(rng.sample(range(n), rng.randint(1, n)))
             steps.append([i, gen_message(rng, fam, True, 1, ID0 + 6100 + len(steps))])
         if fam in ("normal", "natural"):
             x = [anyreal(rng) for _ in range(n)]
@@ -351,9 +366,16 @@ def gen_hist(ctx, count):
 def expected_elems(c, upto):
     params = [list(p) for p in c["msg"]["params"]]
     for i, v in c["steps"][:upto]:
-        for k in range(len(params)):
-            params[k][i] = v["params"][k][0]
+        for ii in step_indices(i):
+            for k in range(len(params)):
+                params[k][ii] = v["params"][k][0]
     return params
+
+
+def step_indices(i):
+    if isinstance(i, list):
+        return list(range(i[1], i[2])) if i[0] == "slice" else list(i[1:])
+    return [i]
 
 
 def same_hex(a, b):
@@ -415,7 +437,7 @@ def coq_hist(c, res):
             mv = clist([cpair(cf(a), cf(b)) for a, b in zip(mean, var)])
         obs.append("(%s, %s, %s)" % (rows(L["parameters"]), rows(natp), mv))
     e0 = rows(c["msg"]["params"])
-    steps = clist(["(%d%%nat, %s)" % (i, clist([cf(v["params"][k][0]) for k in range(len(v["params"]))])) for i, v in c["steps"]])
+    steps = clist(["(%s, %s)" % (clist(["%d%%nat" % ii for ii in step_indices(i)]), clist([cf(v["params"][k][0]) for k in range(len(v["params"]))])) for i, v in c["steps"]])
     return "CHist %s %s %s %s" % (CFAM[c["fam"]], e0, steps, clist(obs))
 
 
@@ -1055,7 +1077,9 @@ def oracle_proj(c, res):
     except ValueError:
         target = None
     got = [[unhex(h) for h in row] for row in res["member_stats"]]
-    rel = 1e-9
+    # normal / natural are closed forms, gamma's Newton inverse converges to machine precision (checked separately against a
+    # root finder); inv_beta_suffstats does five Newton steps from a rough start and is only accurate to ~1e-7 on some inputs
+    rel = 1e-6 if fam == "beta" else 1e-9
     # pinned defect of TransformedMessage.project: the member matches the statistics of the RAW samples
     raw_target = None
     if c.get("t") is not None:
@@ -1368,6 +1392,8 @@ def check_env(c, res):
                 or b["id"] != spec["id"] or unhex(b["log_norm"]) != unhex(spec["log_norm"]) \
                 or (unhex(b["lo"]), unhex(b["hi"])) != (unhex(spec["lo"]), unhex(spec["hi"])) or b["scalar"] != spec["scalar"]:
             return "constructed message %r differs from specification %r" % (b, spec)
+        if spec.get("shape") and b["shape"] != spec["shape"]:
+            return "constructed message has shape %r, specification %r" % (b["shape"], spec["shape"])
         if (spec["t"] is None) != (d.get("t") is None):
             return "wrapper differs from specification"
         if spec["t"] is not None:
@@ -1410,15 +1436,19 @@ def run(ctx):
         "directly from the libraries on keys derived by an independent sequential re-computation",
         "numpy elementwise +,-,*,/,sqrt are IEEE-754 correctly rounded; np.mean over <8 contiguous items or over a non-contiguous "
         "axis adds sequentially (measured on this platform while building the check)",
-        "modelled not verified: numpy broadcasting between messages of different shapes (excluded from the generator), "
-        "scipy quadrature / scipy.stats quantiles used by the numerical density oracle",
+        "modelled not verified: numpy broadcasting between messages of different shapes (judged by the oracle only: pinned known "
+        "findings), scipy quadrature / scipy.stats densities and quantiles / scipy.optimize.brentq used by the numerical oracles",
     ]
     ctx.assumptions = [
         "algebraic theorems are over exact rationals (gamma, beta, natural-normal, fixed; any number of array elements) and over "
         "the reals (normal: mean/sigma <-> natural parameters with sqrt); binary64 results are tied to the same definitions by "
         "bit-exact correspondence only",
         "normalisation of the densities, CDF/mean/variance consistency and the Newton inverses of gamma/beta moment matching are "
-        "checked numerically only (quadrature at 1e-6); they are not proved",
+        "checked numerically only (quadrature at 1e-6; logpdf pointwise against scipy.stats at 1e-10 of the cancelling terms; "
+        "invpsilog against a bracketing root finder at a condition-aware 1e-11); they are not proved. C17_gamma_project assumes "
+        "that invpsilog inverts psi(x) - ln x",
+        "a known-finding class is matched only when the oracle observes exactly the value the finding predicts (pinned defect); "
+        "any other wrong value is a VIOLATION",
         "laws are checked by the oracle only when every intermediate message is a valid member of its family (finite natural "
         "parameters strictly inside the support): NormalMessage is not closed under division and non-positive powers",
     ]
@@ -1539,7 +1569,7 @@ def _small(res):
 MANIFEST = {
     "text": "Coq 8.16 theorems over one generic model of the message algebra (natural-parameter arithmetic of *, /, **, "
             "sum_natural_parameters, zeros_like, from_natural_parameters, re-wrapping of transformed messages, weighted moment "
-            "matching) instantiated with Q (gamma, beta, natural-normal, fixed, any array length) and R (normal with sqrt; linear-shift "
+            "matching, natural_logpdf, in-place item assignment) instantiated with Q (gamma, beta, natural-normal, fixed, any array length) and R (normal with sqrt; linear-shift "
             "change of variables; log-determinant of a transform stack by the chain rule), with refutation witnesses for the defects of "
             "the pinned code, plus bit-exact vm_compute correspondence of the same definitions (binary64 instance, libm/scipy values "
             "as oracle tables) with the running code on generated environments/expressions/projections and a direct property oracle",
